@@ -28,8 +28,48 @@ def class_methods_reachable(repo: Repo, start: FuncInfo, depth=3) -> List[FuncIn
                     if m is not None and m not in out:
                         out.append(m)
                         nxt.append(m)
+                elif isinstance(fn, ast.Attribute):
+                    # a collaborator object the class delegates to: ClassName(..).m(..), a local bound to
+                    # ClassName(..), or self.<attr> that a constructor of the class binds to ClassName(..)
+                    kci = delegate_class(repo, f, fn.value)
+                    if kci is not None:
+                        m = repo.lookup_method(kci, fn.attr)
+                        if m is not None and m not in out:
+                            out.append(m)
+                            nxt.append(m)
         frontier = nxt
     return out
+
+
+def delegate_class(repo: Repo, f: FuncInfo, recv: ast.AST):
+    """Repo class of the object a method is called on, when that object is constructed in plain sight."""
+    def ctor_class(v):
+        if isinstance(v, ast.Call) and ap(v.func):
+            ci = repo.resolve_class(ap(v.func), f.module)
+            if ci is not None and (ap(v.func) or "").split(".")[-1] == ci.name:
+                return ci
+        return None
+    ci = ctor_class(recv)
+    if ci is not None:
+        return ci
+    if isinstance(recv, ast.Name) and recv.id not in ("self", "cls"):
+        vals = [s.value for s in stores(f.node, into_defs=False) if s.path == recv.id and s.kind == "assign"]
+        cis = {ctor_class(v) for v in vals}
+        if len(vals) >= 1 and len(cis) == 1 and None not in cis:
+            return next(iter(cis))
+    if isinstance(recv, ast.Attribute) and isinstance(recv.value, ast.Name) and recv.value.id == "self" and f.cls is not None:
+        found = set()
+        for c in repo.mro(f.cls):
+            for ctor in ("__init__", "__post_init__"):
+                m = c.methods.get(ctor)
+                if m is None:
+                    continue
+                for s in stores(m.node, into_defs=False):
+                    if s.kind == "assign" and s.path == f"self.{recv.attr}":
+                        found.add(ctor_class(s.value))
+        if len(found) == 1 and None not in found:
+            return next(iter(found))
+    return None
 
 
 def module_funcs_reachable(repo: Repo, start: FuncInfo, depth=3) -> List[FuncInfo]:
@@ -389,19 +429,37 @@ def _simple_arg(e) -> bool:
 _INLINE_CACHE = {}
 
 
-def inline_self_calls(repo: Repo, fi: FuncInfo, depth=2, _stack=(), keep=frozenset()):
+def collaborator_class(repo: Repo, ci, attr: str):
+    """Class of the object a class keeps in `self.<attr>`: the one its __init__ (MRO) constructs there."""
+    init = repo.lookup_method(ci, "__init__") if ci is not None else None
+    if init is None:
+        return None
+    found = None
+    for st in stores(init.node, into_defs=False):
+        if st.kind == "assign" and st.path.endswith("." + attr) and st.path.count(".") == 1 \
+                and isinstance(st.value, ast.Call):
+            c = repo.resolve_class(ap(st.value.func) or "", init.module)
+            if c is not None:
+                found = c
+    return found
+
+
+def inline_self_calls(repo: Repo, fi: FuncInfo, depth=2, _stack=(), keep=frozenset(), collaborators=False):
     """Copy of fi.node in which statements `self.m(..)`, `x = self.m(..)`, `return self.m(..)` that call a
     plain method of the same class hierarchy are replaced by the method's body (parameters substituted
     or bound, helper locals renamed `__inlN_x`).  Only helpers without `return` (or with a single
     trailing one) are inlined; anything else stays an opaque call.  The result has parents set, so
     core.conditions/facts and cfg.CFG work on it; use where_of() for locations.
-    `keep`: method names that are never inlined (the primitives a rule wants to see as calls)."""
+    `keep`: method names that are never inlined (the primitives a rule wants to see as calls).
+    `collaborators`: also inline `self.<attr>.m(..)` when __init__ stores an instance of a repo class in
+    `<attr>` (delegation to a collaborator object); the callee's self becomes `self.<attr>`."""
     keep = frozenset(keep)
     from ..core import set_parents
-    key = (id(repo), fi.full, depth, keep)
+    key = (fi.full, depth, keep, collaborators)
     top = not _stack
-    if top and key in _INLINE_CACHE:
-        return _INLINE_CACHE[key]
+    cache = repo.__dict__.setdefault("_inline_cache", {})   # per Repo object (id() values are reused after gc)
+    if top and key in cache:
+        return cache[key]
     fn = clone_ast(fi.node, fi.module.rel)
     if fi.cls is not None and depth > 0 and fn.args.args:
         selfname = fn.args.args[0].arg
@@ -409,11 +467,20 @@ def inline_self_calls(repo: Repo, fi: FuncInfo, depth=2, _stack=(), keep=frozens
 
         def helper_of(call):
             f = call.func
+            if collaborators and isinstance(f, ast.Attribute) and isinstance(f.value, ast.Attribute) \
+                    and isinstance(f.value.value, ast.Name) and f.value.value.id == selfname:
+                cc = collaborator_class(repo, fi.cls, f.value.attr)
+                h = repo.lookup_method(cc, f.attr) if cc is not None else None
+                if f.attr in keep or h is None or h.full in _stack or h.node.decorator_list or not h.node.args.args:
+                    return None
+                h._recv_expr = f.value      # noqa: the callee's self is this expression
+                return h
             if not (isinstance(f, ast.Attribute) and isinstance(f.value, ast.Name) and f.value.id == selfname):
                 return None
             h = repo.lookup_method(fi.cls, f.attr)
             if f.attr in keep or h is None or h == fi or h.full in _stack or h.node.decorator_list:
                 return None
+            h._recv_expr = None
             return h
 
         def try_inline(st):
@@ -442,7 +509,8 @@ def inline_self_calls(repo: Repo, fi: FuncInfo, depth=2, _stack=(), keep=frozens
             rets = [x for x in walk(h.node) if isinstance(x, ast.Return)]
             if len(rets) > 1 or (rets and rets[0] is not h.node.body[-1]):
                 return None
-            hfn = inline_self_calls(repo, h, depth - 1, _stack + (fi.full,), keep)
+            recv_expr = getattr(h, "_recv_expr", None)
+            hfn = inline_self_calls(repo, h, depth - 1, _stack + (fi.full,), keep, collaborators)
             body = list(hfn.body)
             if body and isinstance(body[0], ast.Expr) and isinstance(body[0].value, ast.Constant) \
                     and isinstance(body[0].value.value, str):
@@ -481,7 +549,11 @@ def inline_self_calls(repo: Repo, fi: FuncInfo, depth=2, _stack=(), keep=frozens
                     elif isinstance(x, ast.ExceptHandler) and x.name:
                         stored.add(x.name)
             stored.discard(selfname)
+            hself = hfn.args.args[0].arg if hfn.args.args else selfname
+            stored.discard(hself)
             mapping, rename, prologue = {}, {n: pre + n for n in stored}, []
+            if recv_expr is not None:
+                mapping[hself] = recv_expr
             for p, e in bound.items():
                 if _simple_arg(e) and p not in stored:
                     mapping[p] = e
@@ -529,7 +601,7 @@ def inline_self_calls(repo: Repo, fi: FuncInfo, depth=2, _stack=(), keep=frozens
     if top:
         ast.fix_missing_locations(fn)
         set_parents(fn)
-        _INLINE_CACHE[key] = fn
+        cache[key] = fn
     return fn
 
 
